@@ -826,3 +826,21 @@ Proof.
       * apply bar_follows_top_noU. intros z Hz.
         apply in_insert_syncs_inv in Hz as [Hz|Hz]; [right; apply (Nz z); right; right; exact Hz | left; exact Hz].
 Qed.
+
+(* ---- on the barrier machine itself --------------------------------------------------------------------- *)
+From Snax Require Import Model.MultiCoreStreams Proofs.MultiCoreMachine Proofs.MultiCoreStreamsProofs.
+
+(* a program all of whose conflicting pairs are guarded, run on the barrier machine along any path:
+   every maximal execution of the cores terminates in the memory of the program order *)
+Theorem all_guarded_machine : forall prog, all_guarded prog = true ->
+  forall o cores m, cores <> [] -> NoDup cores ->
+  let phs := map (filter specific) (split_phases [] (rrunl o prog [])) in
+  (forall ph op, In ph phs -> In op ph -> In (o_core op) cores) ->
+  forall cfg, steps (streams_of cores phs, m) cfg ->
+    (all_finished (fst cfg) = true /\ meq (snd cfg) (exec (concat phs) m)) \/ (exists cfg', step cfg cfg').
+Proof.
+  intros prog Hall o cores m Hc Hn phs Hin cfg Hs.
+  apply (machine_phases cores phs m Hc Hn Hin); [|exact Hs].
+  apply Forall_forall. intros ph Hph. unfold phs in Hph. apply in_map_iff in Hph as [ph0 [<- H0]].
+  pose proof (all_guarded_phases_drf prog Hall o) as Hf. rewrite Forall_forall in Hf. apply Hf. exact H0.
+Qed.
